@@ -85,6 +85,11 @@ def scenarios(rng):
         pa = x[0] ** 2 * x[1] ** 2 + x[0] ** 2 + x[1] ** 2 - x[0] * x[1]
         XA = sp.infer_domain(pa, [x[0] ** 2 - 0.01, x[1] ** 2 - 0.01, 1 - x[0] ** 2, 1 - x[1] ** 2], [])
         out.append(('poly_annulus_domain', lambda: sp.poly_constrained_relaxation(pa, [], [], XA, form='dual'), 'poly', pa, [], []))
+        # a variable that occurs only with EVEN powers in the monomials with nonzero moments (x1 here): its sign is free; every option
+        # combination (all_signs=False in particular) must return feasible, sorted points without raising
+        pe = x[0] ** 4 - 4 * x[0] + x[1] ** 4 - 2 * x[1] ** 2
+        pge = [9 - x[0] ** 2 - x[1] ** 2]
+        out.append(('poly_even_only_variable', lambda: sp.poly_constrained_relaxation(pe, pge, [], form='dual', p=0, q=1, ell=0), 'poly', pe, pge, []))
         out.append(('poly_lifted_domain', lambda: sp.poly_constrained_relaxation(p, pg2, [], XP, form='dual', p=0, q=1, ell=0), 'poly', p, pg2, []))
     return out
 
@@ -237,7 +242,7 @@ def is_feasible_direct(ctx):
 def run(ctx):
     is_feasible_direct(ctx)
     cases = []
-    optsets = [{}, {'zero_tol': 1e-6}, {'ineq_tol': 0.0, 'eq_tol': 0.0}, {'skip_ls': True}, {'ineq_tol': 1e-6, 'eq_tol': 1e-4}, {'ineq_tol': 1e-9, 'eq_tol': 0.25}, {'all_signs': False}, {'heuristic_signs': False, 'zero_tol': 1e-12}]
+    optsets = [{}, {'zero_tol': 1e-6}, {'ineq_tol': 0.0, 'eq_tol': 0.0}, {'skip_ls': True}, {'ineq_tol': 1e-6, 'eq_tol': 1e-4}, {'ineq_tol': 1e-9, 'eq_tol': 0.25}, {'all_signs': False}, {'heuristic_signs': False, 'zero_tol': 1e-12}, {'all_signs': False, 'heuristic_signs': False}, {'all_signs': False, 'skip_ls': True}]
     for rep in range(ctx.n(1, 6)):
         for name, build, kind, f, gts, eqs in scenarios(ctx.rng):
             for opts in (optsets if rep == 0 else [ctx.rng.choice(optsets)]):
